@@ -9,6 +9,7 @@ Open Scope N_scope.
 Inductive cop :=
 | CInsert (s : series) (id : N)
 | CFlush
+| CNop            (* an observation the model does not cover (a predicate with a tag = tag comparison): judged by the oracle only *)
 | CBgFlush        (* the table's own periodic flush: the raw items become visible like with a forced flush *)
 | CClear
 | CReopen (b : N)
@@ -55,6 +56,7 @@ Definition check_op (cl cn : bool) (tab : list (N * N)) (i : index) (o : cop) : 
   | CInsert s id => let (i', id') := insert slow i s in (i', if id' =? id then [] else [1])
   | CFlush => (fst (step slow i Flush), [])
   | CBgFlush => (fst (step slow i Flush), [])
+  | CNop => (i, [])
   | CClear => (fst (step slow i ClearCache), [])
   | CReopen b => (fst (step slow i (Reopen b)), [])
   | CQuery m e alts ids1 ids2 =>
